@@ -165,6 +165,13 @@ pub fn run_history_at(tr: &mut Trace, c: &Conc, f: &TestFile, with_idx: bool, co
         std::fs::write(p.with_extension("dbf"), &f.dbf).unwrap();
         if with_idx {
             std::fs::write(p.with_extension("shx"), &f.shx).unwrap();
+            // file times say nothing about which index belongs to a .shp (copies, restores, touched files): every
+            // other pair gets an index that is an hour OLDER than its .shp, the others one that is an hour younger
+            if let Ok(fh) = std::fs::OpenOptions::new().write(true).open(p.with_extension("shx")) {
+                let hour = std::time::Duration::from_secs(3600);
+                let now = std::time::SystemTime::now();
+                let _ = fh.set_modified(if (hist.len() + n) % 2 == 0 { now - hour } else { now + hour });
+            }
         } else {
             let _ = std::fs::remove_file(p.with_extension("shx"));
         }
